@@ -23,6 +23,7 @@ EXPLANATION = (
     "de-duplicated by position - de-duplication by index label (index.duplicated) or by row value (.unique() / "
     "drop_duplicates) removes legitimately distinct rows. (R5) the concatenation of several selections goes through a de-duplication step (rows selected by both head and tail are validated once) and nothing re-orders the subsample (no sort_index / sort after the concat). " 
     " (R6) every subsample(...) call of a backend receives the caller's random_state value itself - no re-binding into a stateful generator shared by several draws. " 
+    " (R7) a parameter annotated pl.LazyFrame is used through the LazyFrame API only (no DataFrame-only method such as sample without collect). " 
     "NOT decided: verdict equality with the explicitly subsampled "
     "frame on data."
 )
